@@ -706,9 +706,18 @@ def check_program(src, calls, pyi):
           stats["skipped"] += 1
         else:
           chk("attr", "%s.%s" % (cls.__name__, a), at, av)
+  call_stmts = {}
+  for node in ast.parse(src).body:
+    if isinstance(node, ast.Assign) and len(node.targets) == 1 and isinstance(node.targets[0], ast.Name) \
+        and isinstance(node.value, ast.Call):
+      f = node.value.func
+      if isinstance(f, ast.Name):
+        call_stmts.setdefault(node.targets[0].id, []).append(("func", f.id))
+      elif isinstance(f, ast.Attribute) and isinstance(f.value, ast.Name):
+        call_stmts.setdefault(node.targets[0].id, []).append(("method", f.value.id, f.attr))
   for c in calls:
     r = c[0]
-    if r not in g:
+    if r not in g or call_stmts.get(r) != [tuple(c[1:])]:
       continue
     if c[1] == "func":
       rets = stub.funcs.get(c[2])
@@ -743,17 +752,33 @@ def _stmt_lists(tree):
         yield h, "body"
 
 
-def minimise(src, pred, budget_s=20.0):
-  deadline = time.time() + budget_s
+class Budget:
+  """a budget of predicate evaluations (deterministic, unlike a wall-clock bound) with a generous time cap"""
+
+  def __init__(self, evals, seconds=120.0):
+    self.left = evals
+    self.deadline = time.time() + seconds
+
+  def spend(self):
+    self.left -= 1
+    return self.left >= 0 and time.time() < self.deadline
+
+  def ok(self):
+    return self.left > 0 and time.time() < self.deadline
+
+
+def minimise(src, pred, budget):
+  if not isinstance(budget, Budget):
+    budget = Budget(int(budget * 8), budget * 4)
   changed = True
-  while changed and time.time() < deadline:
+  while changed and budget.ok():
     changed = False
     tree = ast.parse(src)
     lists = list(_stmt_lists(tree))
     for li, (node, f) in enumerate(lists):
       n = len(getattr(node, f))
       for i in range(n - 1, -1, -1):
-        if time.time() > deadline:
+        if not budget.spend():
           return src
         t2 = ast.parse(src)
         node2, f2 = list(_stmt_lists(t2))[li]
@@ -821,17 +846,16 @@ def count_exprs(tree):
   return sum(1 for n in ast.walk(tree) if isinstance(n, ast.expr) and not isinstance(n, (ast.Name, ast.Constant)))
 
 
-def simplify_exprs(src, pred, budget_s=20.0):
+def simplify_exprs(src, pred, budget):
   """replace expressions by one of their sub-expressions or by a small constant while `pred` stays true"""
-  deadline = time.time() + budget_s
+  if not isinstance(budget, Budget):
+    budget = Budget(int(budget * 8), budget * 4)
   changed = True
-  while changed and time.time() < deadline:
+  while changed and budget.ok():
     changed = False
     n = count_exprs(ast.parse(src))
     for k in range(n):
       for new in (0, 1, 2, "None", "0", "''", "()", "[]"):
-        if time.time() > deadline:
-          return src
         tree = ast.parse(src)
         rp = _Repl(k, new)
         try:
@@ -841,6 +865,8 @@ def simplify_exprs(src, pred, budget_s=20.0):
           continue
         if not rp.done or cand == src or len(cand) >= len(src):
           continue
+        if not budget.spend():
+          return src
         try:
           ok = pred(cand)
         except Exception:  # pylint: disable=broad-except
